@@ -86,6 +86,22 @@ def x_sketch(report):
     else:
         refuses_zero = False
 
+    # does _compute_individual create the --output-dir directory (patches/C14.2-sketch-create-output-dir.diff)?
+    ci = dup_src = None
+    for n in tree.body:
+        if isinstance(n, ast.FunctionDef) and n.name == "_compute_individual":
+            ci = ast.unparse(n)
+    if ci is None:
+        raise Unrecognised("_compute_individual", "not found in command_sketch.py")
+    want_mk = "if args.output_dir:\n                os.makedirs(args.output_dir, exist_ok=True)\n                sigfile = os.path.join(args.output_dir, sigfile)"
+    want_no = "if args.output_dir:\n                sigfile = os.path.join(args.output_dir, sigfile)"
+    if want_mk in ci:
+        creates_outdir = True
+    elif want_no in ci and "makedirs" not in ci:
+        creates_outdir = False
+    else:
+        raise Unrecognised("_compute_individual", "--output-dir handling has neither known shape")
+
     # Rust side
     rs = strip_rust_comments(read("src/core/src/cmd.rs"))
     bt = rust_fn_body(rs, "build_template")
@@ -136,11 +152,16 @@ def x_sketch(report):
         t = ast.parse(src)
         dup[label] = {n.name: ast.get_source_segment(src, n) for n in t.body
                       if isinstance(n, (ast.FunctionDef, ast.ClassDef))}
-    for name in ("ComputeParameters", "_compute_individual", "_compute_merged", "add_seq", "set_sig_name"):
+    required = ("ComputeParameters", "_compute_individual", "_compute_merged", "add_seq", "set_sig_name")
+    for name in required:
         if name not in dup["sketch"] or name not in dup["compute"]:
             raise Unrecognised(name, "no longer defined in both command_sketch.py and command_compute.py")
+    # EVERY top-level function / class the two modules both define must be textually the same
+    shared = sorted(set(dup["sketch"]) & set(dup["compute"]))
+    for name in shared:
         if dup["sketch"][name] != dup["compute"][name]:
             raise Unrecognised(name, "the copies in command_sketch.py and command_compute.py differ: decide which one the model follows")
+    report["inputs"]["sketch_compute_shared_definitions"] = shared
     # Python ComputeParameters.__init__ keyword defaults (the copy the sketch factory uses)
     cc = ast.parse(py)
     cls = next((n for n in cc.body if isinstance(n, ast.ClassDef) and n.name == "ComputeParameters"), None)
@@ -152,7 +173,7 @@ def x_sketch(report):
         raise Unrecognised("ComputeParameters.__init__", f"keyword set changed: {sorted(pyd)}")
 
     report["inputs"]["sketch"] = {"DEFAULTS": defaults, "DEFAULT_MMHASH_SEED": seed, "k_mult": mult,
-                                  "parse_tests": tests, "refuses_zero_size": refuses_zero, "build_template_order": order,
+                                  "parse_tests": tests, "refuses_zero_size": refuses_zero, "creates_outdir": creates_outdir, "build_template_order": order,
                                   "rust_defaults": got, "py_defaults": {k: repr(v) for k, v in pyd.items()}}
     b = lambda x: "true" if x in (True, "true") else "false"
     out = [""]
@@ -162,6 +183,8 @@ def x_sketch(report):
     out.append(f"def sketchDefaultSeed : Nat := {seed}")
     out.append("/-- `_signatures_for_sketch_factory.__init__` ends with the check that refuses a parameter set with neither num nor scaled (patches/C14.1) -/")
     out.append(f"def sketchRefusesZero : Bool := {'true' if refuses_zero else 'false'}")
+    out.append("/-- `_compute_individual` creates the `--output-dir` directory before writing into it (patches/C14.2) -/")
+    out.append(f"def sketchCreatesOutdir : Bool := {'true' if creates_outdir else 'false'}")
     out.append("/-- non-DNA k sizes are multiplied by this in `get_compute_params` -/")
     out.append(f"def sketchKMult : Nat := {mult}")
     out.append("/-- order in which `build_template` (cmd.rs) pushes one sketch per molecule type for each k -/")
